@@ -243,23 +243,20 @@ class System:
         from ptera.overlay import HandlerCollection
         from ptera import probe as probe_mod
 
-        cur = HandlerCollection.current.get()
+        from pv.core import introspect as I
+
+        pairs = I.current_pairs()
         slot_of = {}
         for s, p in w.probes.items():
             ol = getattr(p, "_ol", p)
             for h in getattr(ol, "handlers", ()):
                 slot_of[id(h)] = s
-        hc = None if cur is None else tuple(slot_of.get(id(acc), "?") for _, acc in cur.handler_pairs)
+        hc = None if pairs is None else tuple(slot_of.get(id(acc), "?") for _, acc in pairs)
         fns = []
         for name in ("f", "g", "h"):
             fn = w.ns[name]
-            st = getattr(fn, "__ptera_stack__", None)
-            if st is None:
-                fns.append((name, None, fn.__code__ is w.orig[name]))
-            else:
-                caps = tuple(sorted((str(c), n) for c, n in st.captures.items() if n))
-                fns.append((name, st.instrument_count, caps, fn.__code__ is w.orig[name]))
-        return (hc, tuple(sorted(w.probes)), tuple(fns), len(probe_mod.global_probes))
+            fns.append((name, I.stack_state(fn), fn.__code__ is w.orig[name]))
+        return (hc, tuple(sorted(w.probes)), tuple(fns), I.n_global_probes())
 
     def invariant(self, w, model):
         from ptera.overlay import HandlerCollection
@@ -271,21 +268,22 @@ class System:
         for name in ("f", "g"):
             n = sum(1 for s in active if name in SLOTS[s][3])
             fn = w.ns[name]
-            st = getattr(fn, "__ptera_stack__", None)
-            cnt = st.instrument_count if st is not None else 0
-            if cnt != n:
+            from pv.core import introspect as I
+
+            cnt = I.count_of(fn)
+            if cnt != n and (I.stack_of(fn) is None or I.stack_state(fn)[0] is not None):
                 probs.append(f"{name}: instrument_count={cnt} but {n} active probes refer to it")
             if n == 0:
                 if fn.__code__ is not w.orig[name]:
                     probs.append(f"{name} does not run its original code although no probe is active on it")
-                if st is not None and any(v for v in st.captures.values()):
-                    probs.append(f"{name}: capture counters left over {dict((str(k), v) for k, v in st.captures.items() if v)}")
+                if I.leftover_captures(fn):
+                    probs.append(f"{name}: capture counters left over {I.leftover_captures(fn)}")
         if 9 not in active and w.h.__code__ is not w.orig["h"]:
             probs.append("the tooled function h does not run its tooled code although no probe is active on it")
         if not active:
-            if HandlerCollection.current.get() is not None:
+            if I.current_collection() is not None:
                 probs.append("a handler collection is still installed although nothing is active")
-            if probe_mod.global_probes:
+            if I.n_global_probes():
                 probs.append("global_probes is not empty")
             for k, v in w.ns.items():
                 if isinstance(k, str) and k.startswith(("__ptera_", "_ptera__")):
@@ -295,8 +293,8 @@ class System:
                 elif w.globals_before[k] is not v:
                     probs.append(f"module global {k!r} was changed")
         nprobes = sum(1 for s in active if SLOTS[s][0] in ("probe", "reduce", "raising-total"))
-        if len(probe_mod.global_probes) != nprobes:
-            probs.append(f"global_probes has {len(probe_mod.global_probes)} entries, {nprobes} probes are active")
+        if I.n_global_probes() is not None and I.n_global_probes() != nprobes:
+            probs.append(f"global_probes has {I.n_global_probes()} entries, {nprobes} probes are active")
         return probs
 
     def close(self, w):
